@@ -30,7 +30,7 @@ func TestMain(m *testing.M) {
 	hx.Main(m)
 }
 
-const ruleC32 = "generated concurrent programs against a real gnet.ConnectionPool listening on 127.0.0.1 (binary built with the race detector, halt on first report): 2-6 worker goroutines each run a drawn list of 3-12 operations {Connect to one of 3 raw TCP peers, raw inbound dial (optionally sending a valid frame, an oversized length prefix or garbage, optionally closing at once), Disconnect of a known / unknown address, SendMessage, BroadcastMessage, GetConnections, Size, GetConnection, SendPings, GetStaleConnections, ListeningAddress, IsMaxOutgoingDefaultConnectionsReached, peer-side close}, each preceded by a drawn pause {none, yield, 50us, 500us, 2ms}; one goroutine calls Shutdown at a drawn position while the others are still running; the pool's callbacks and the send-result channel are serviced as the daemon does; oracle: no race report, no panic, every call returns within 20 s (a hang is reported only if the same program hangs again), every strand-based call that starts after Shutdown returned yields the pool-closed error, Shutdown returns, afterwards no connection is registered (verif hook) and every peer socket has been closed by the pool; non-trivial = at least 2 workers were still issuing operations when Shutdown started and at least one connection was established; distinct by program text"
+const ruleC32 = "generated concurrent programs against a real gnet.ConnectionPool listening on 127.0.0.1 (binary built with the race detector; every report is classified by the two functions that touch the shared word, documented patterns are listed as known findings, anything else fails the run): 2-6 worker goroutines each run a drawn list of 3-12 operations {Connect to one of 3 raw TCP peers, raw inbound dial (optionally sending a valid frame, an oversized length prefix or garbage, optionally closing at once), Disconnect of a known / unknown address, SendMessage, BroadcastMessage, GetConnections, Size, GetConnection, SendPings, GetStaleConnections, ListeningAddress, IsMaxOutgoingDefaultConnectionsReached, peer-side close}, each preceded by a drawn pause {none, yield, 50us, 500us, 2ms}; one goroutine calls Shutdown at a drawn position while the others are still running; the pool's callbacks and the send-result channel are serviced as the daemon does; oracle: no race report, no panic, every call returns within 20 s (a hang is reported only if the same program hangs again), every strand-based call that starts after Shutdown returned yields the pool-closed error, Shutdown returns, afterwards no connection is registered (verif hook) and every peer socket has been closed by the pool; non-trivial = at least 2 workers were still issuing operations when Shutdown started and at least one connection was established; distinct by program text"
 
 // vmsg is a wire message of the harness: a 4-byte length prefixed payload, handler counts deliveries.
 type vmsg struct {
